@@ -29,6 +29,7 @@ Scripts ==
 Cases == [ deny : 0..4,                                    \* phase of an unconditional deny (0 = none)
            reqAccess : BOOLEAN, reqAction : {"Reject", "ProcessPartial"},
            respAccess : BOOLEAN, respAction : {"Reject", "ProcessPartial"},
+           ctl : {"", "reqOn1", "respOn3"},                 \* a rule switching body access on at run time: ctl:requestBodyAccess=On in phase 1 / ctl:responseBodyAccess=On in phase 3
            body : {0, 4, 8, 12}, known : BOOLEAN,           \* request body size; Content-Length announced or chunked
            script : Scripts ]
 
@@ -46,7 +47,10 @@ NoBodyStatus(st) == st \in {204, 304}
 
 CONSTANTS Slice, Slices
 VARIABLES c, step
-Init == c \in {x \in Cases : /\ (x.deny = 4 => x.respAccess)          \* phase 4 needs an inspectable response body
+EffReqAccess(x) == x.reqAccess \/ x.ctl = "reqOn1"
+EffRespAccess(x) == x.respAccess \/ x.ctl = "respOn3"
+Init == c \in {x \in Cases : /\ (x.deny = 4 => EffRespAccess(x))
+                              /\ (x.ctl = "reqOn1" => ~x.reqAccess) /\ (x.ctl = "respOn3" => ~x.respAccess)   \* only where the switch changes something          \* phase 4 needs an inspectable response body
                               /\ (x.deny \in {3, 4} => Touches(x.script)) \* a handler that never starts a response: left open
                               /\ (x.body = 0 => x.known)
                               /\ ((x.body + x.deny) % Slices = Slice)} /\ step = 0
@@ -54,14 +58,14 @@ Next == step = 0 /\ step' = 1 /\ UNCHANGED c
 Spec == Init /\ [][Next]_<<c, step>>
 
 \* ---- request side ----
-OverReq(x) == x.reqAccess /\ x.body >= ReqLimit
+OverReq(x) == EffReqAccess(x) /\ x.body >= ReqLimit
 ReqBlocked(x) == x.deny = 1 \/ (OverReq(x) /\ x.reqAction = "Reject") \/ x.deny = 2
 ReqStatus(x) == IF x.deny = 1 THEN 403
                 ELSE IF OverReq(x) /\ x.reqAction = "Reject" THEN 413
                 ELSE 403
 
 \* ---- response side ----
-Inspectable(x) == x.respAccess                      \* the handler sets a processable content type
+Inspectable(x) == EffRespAccess(x)                      \* the handler sets a processable content type
 OverResp(x) == Inspectable(x) /\ Written(x.script) >= RespLimit
 RespBlocked(x) ==
   ~ReqBlocked(x) /\ ( (x.deny = 3 /\ Touches(x.script))
